@@ -68,6 +68,7 @@ type SimStream struct {
 	startPos  *msgpb.MsgPosition
 	pending   []*REntry
 	Closed    bool
+	CloseStep int // scheduler step at which the stream was deregistered
 	Delivered []*DeliveredPack
 	RegNo     int
 	RegStep   int
@@ -245,6 +246,7 @@ func (m *SimMQ) deregister(cid, vchannel string) {
 	defer m.mu.Unlock()
 	if st := m.streams[skey(cid, vchannel)]; st != nil && !st.Closed {
 		st.Closed = true
+		st.CloseStep = m.sim.Step
 		close(st.Ch)
 		m.sim.Side("deregistered %s", skey(cid, vchannel))
 	}
